@@ -30,16 +30,46 @@ CHECKS = {
          "Every operation of every generated edit history is applied to a DenseGraph, a SparseGraph and a bit-matrix model; after each operation N, M, IsEdge (all ordered pairs), Neighbours and Degrees of every live graph (sources, copies, induced subgraphs) are compared with the models, so aliasing and stale cached counts surface at the first operation that exposes them. All histories of length <= 4 (5 thorough) from 8 small start graphs are enumerated; seeded histories reach n = 12 (40 thorough). Holds on what was observed.",
          "Trusts the harness model rg.G; argument domain: valid indices, neighbour / vertex lists without repeats.",
          "DESIGN.md section 4 C05"),
+ "C12": ("exploration",
+         "runtime monitoring: model-based oracle (sorted word list, ranks = indices, minimal DFA size by hash-consing right languages) on every built automaton, Add histories with rejected words, node structure read through a verif-tagged accessor",
+         "For all 2^15 word sets over {a,b} (length <= 3), all 2^13 over {a,b,c} (length <= 2), seeded sets over alphabets of 1..256 bytes up to 5000 words (thorough: 2^21 sets, the dictionary) every member, prefix, extension, one-byte edit and random probe is looked up and compared with the model (rank = index), NumberOfWords, node count (GobEncode header and accessor) = minimal DFA size, per-node word counts = right-language sizes; Add histories with out-of-order / duplicate / nil / caller-mutated words must reject exactly those and build the accepted subsequence.",
+         "Trusts the refdawg model and the add-only accessor dawg.VerifNodes (build tag verif).",
+         "DESIGN.md section 4 C12"),
+ "C13": ("exploration",
+         "runtime monitoring: reference filter over the sorted word list for patterns, anagrams and their intersections; repeated searches and searcher reuse; Lookup unchanged afterwards",
+         "On every Dawg of the C12 workloads all patterns and anagrams over alphabet + blank (exhaustive for the small alphabets, seeded above, incl. blanks equal to letters, letters outside the alphabet, empty, all-blank, repeated letters) and combinations of searchers are run; results must equal the byte-wise reference filter, in lexicographic order, with ids = ranks; the same searcher objects are searched again (same and another Dawg) and all Lookups re-checked.",
+         "Trusts the byte-wise match predicates of refdawg.",
+         "DESIGN.md section 4 C13"),
+ "C14": ("exploration",
+         "runtime monitoring: round-trip oracle (GobDecode(GobEncode) and encoding/gob) with behavioural comparison and byte-identical re-encoding across fan-out and count boundaries",
+         "Every Dawg of the C12 workloads plus constructed ones with k children for k in {0,1,127,128,129,255,256} and node / word / id counts on both sides of 127, 255/256 and 65535 is encoded, decoded (directly and through encoding/gob) and compared: same words, ranks, NumberOfWords, node count, search results; encoding again gives the same bytes.",
+         "Trusts refdawg and the node accessor.",
+         "DESIGN.md section 4 C14"),
  "C15": ("exploration",
          "runtime monitoring: reference enumerators (exact sequence / multiset oracle), bounded drive of Next with post-exhaustion probes, instrumented predicate callbacks",
          "Every iterator is driven for at most |expected|+3 calls on all parameters with n <= 8 (9 thorough) including k = 0, k > n, n = 0/1, zero and repeated multiplicities, empty factors; each yielded object is compared with an independent recursive reference in the documented order (or as a set where none is documented); three further Next calls must report exhaustion; predicate-driven iterators are compared with the filtered unrestricted family and every callback argument is checked. Found eight defects (all repaired). Holds on what was observed.",
          "Trusts the recursive reference enumerators (validated against C(n,k), n!, Bell and partition numbers); 0-vs-1-object conventions that the documentation leaves open are recorded, not judged.",
          "DESIGN.md section 4 C15"),
+ "C16": ("exploration",
+         "runtime monitoring: big-integer oracle per call over exhaustive small ranges, every overflow threshold +-3, seeded 64-bit arguments; Rank/Unrank inverse and colex agreement; CPU watchdog for termination",
+         "CoeffUint64/Coeff are called on every (n,k) with n <= 80, on both sides (+-3) of the exact thresholds C(n,k)*k' <= 2^64-1 and C(n,k) <= 2^64-1 (and the int ones) for all k <= 40, on powers of two +-1 and on 10^5 (10^7) seeded pairs: the result must equal math/big or be a panic, and must not be a panic inside the guaranteed range; Coeffs = Pascal; Rank/Unrank are mutually inverse on all ranks < 5000 x k <= 6, around every C(l,k) boundary near MaxInt and on seeded 63-bit ranks, and agree with CombinationsColex; an Unrank that does not return is a violation (CPU budget).",
+         "Trusts math/big and the bigcomb reference (self-checked against Pascal and bit-mask colex order).",
+         "DESIGN.md section 4 C16"),
+ "C17": ("exploration",
+         "runtime monitoring: map-based set model per call, bounded-exhaustive operand domains, mutation histories, argument-immutability sentinels; ints.Sort against sort.Ints incl. the heapsort branch via a verif-tagged entry point",
+         "All binary operations on all pairs of subsets of {-2..3}, Add/NewSortedInts on all argument lists of length <= 4 over {-1..3} x all receivers in {0..4}, Range on all (start,end,step) in [-6,6]^3 plus the limits of int (documented panics required), seeded large sets, mutation histories with and without spare capacity; results must be strictly increasing and equal the model, non-mutating functions must leave operands (and the memory around them) untouched; ints.Sort on 0..3000 elements of seven shapes and the heapsort fallback.",
+         "Trusts the refset model and sort.Ints; the add-only hook ints.VerifQuickSortDepth (build tag verif).",
+         "DESIGN.md section 4 C17"),
  "C18": ("exploration",
          "runtime monitoring: model-based lock-step oracle over union/find histories (bounded-exhaustive + seeded)",
          "Every operation of every generated history is judged against a naive partition model; all histories of length <= 4 (5 in thorough) over the full operation alphabet on n <= 4 are enumerated exhaustively, deep-tree union orders and long seeded histories up to n = 256 add path compression over chains of depth >= 3. Holds on what was observed; larger n and longer histories are only sampled.",
          "Trusts the harness model (label array, relabel on union) and that copying a disjoint.Set with append() gives an independent value.",
          "DESIGN.md section 4 C18"),
+ "C19": ("exploration",
+         "runtime monitoring under the Go race detector: 16 goroutines on independent values and shared read-only values at GOMAXPROCS 2/4/16 with seeded yields; race-report counter over the detector log + result-equality oracle against sequential execution",
+         "Eight workloads (16 search shards in parallel, canonical labelling with own and reused storage, shared Dawg with per-goroutine searchers, shared dense/sparse/view graphs under every observer and read-only algorithm, one iterator/builder/set history per goroutine, comb tables, concurrent AllMaximalCliques producers, a pure-harness stub) run in a -race build; zero race reports and every result equal to the same operation run alone are required; the evidence counts temporally overlapping operation pairs actually observed. Schedules are sampled.",
+         "Trusts the race detector (happens-before over executed accesses) and the harness's own synchronisation (stub workload).",
+         "DESIGN.md section 4 C19"),
  "C20": ("fault_enumeration",
          "runtime monitoring with fault injection: recording / failing io.Writer at every write position x 4 failure modes, offline checker over the recorded event log, TSPLIB reference parser; strace syscall fault injection end to end (thorough)",
          "For n = 0..12 (60 thorough) and 7 weight families the bytes received are parsed by a reader written from the TSPLIB description and compared entry by entry, the weights callback arguments are checked, and EVERY write position of the fault-free run is failed in turn (permanent, transient, short write with error; short write with nil error is recorded only): LIB must return a non-nil error. Verdicts are re-derived offline from the event log. Thorough repeats the plane on a real file with strace -e inject=write:error=ENOSPC.",
